@@ -303,7 +303,7 @@ def check_builds(builds):
         # the component observations directly after build
         exp = {"block": "%d %d000000000 mark-%d" % ((cfg["block"][1],) * 3) if "block" in cfg else DEFAULT_BLOCK,
                "api-prefix": PREFIXES[cfg["api"][1]] if "api" in cfg else "cosmwasm",
-               "wasm-gen": str(cfg["wasm"][1]) if "wasm" in cfg else "default",
+               "wasm-gen": ("%s/%s" % (cfg["wasm"][1], cfg["wasm"][1])) if "wasm" in cfg else "default/default",
                "init-count": "1"}
         for op, want in exp.items():
             if op in first and first[op] != want:
